@@ -254,6 +254,24 @@ def run(repo, rep):
     init = sc.find_method('__init__')
     rep.analysed(init)
     vparam, cparam = init.params[1], init.params[2]
+    # a record filter applied to what the look-up found -- ``status = H(code, status)`` with H a function of this module added
+    # after the pinned tree: the look-up is judged without it (W2) and the classification is judged *through* it (W3: H is
+    # evaluated by constant propagation, peval.py, on every interval of the partition, split where H's constants lie)
+    post_filter = None
+    for st_ in list(init.node.body):
+        if isinstance(st_, ast.Assign) and len(st_.targets) == 1 and isinstance(st_.targets[0], ast.Name) and isinstance(st_.value, ast.Call) \
+                and isinstance(st_.value.func, ast.Name) and st_.value.func.id in st.functions and repo.is_helper(st.functions[st_.value.func.id]) \
+                and not st_.value.keywords and sorted(norm(a_) for a_ in st_.value.args) == sorted([vparam, st_.targets[0].id]) \
+                and len(st_.value.args) == 2:
+            hf_ = st.functions[st_.value.func.id]
+            post_filter = (hf_, [norm(a_) for a_ in st_.value.args].index(vparam))
+            import copy as _copy2
+            from ..srcmodel import FuncInfo as _FI
+            node2 = _copy2.deepcopy(init.node)
+            node2.body = [x for x, y in zip(node2.body, init.node.body) if y is not st_]
+            init = _FI(module=init.module, cls=init.cls, name=init.name, node=node2, kind=init.kind, parent=init.parent, nested=init.nested)
+            rep.analysed(hf_)
+            break
     init_new = new_params(init, 3) or {}
     c = SymClient(repo, init, event_of=lambda *a: None, hierarchy=hier, inline=helper, store_event=lambda t: t.startswith('self.'))
     fin = c.final_states(c.run(empty_state(dict(init_new))))
@@ -349,12 +367,15 @@ def run(repo, rep):
         if tterm is None:
             probs.append('status_type not assigned on a path')
             continue
-        has_cmd = ('+' + cparam) in s.conds or ('-%s is None' % cparam) in s.conds
-        no_cmd = ('-' + cparam) in s.conds or ('+%s is None' % cparam) in s.conds
-        spec_hit = ('+' + spec) in s.conds or ('-not ' + spec) in s.conds
-        spec_miss = ('-' + spec) in s.conds
-        gen_hit = ('+' + gen) in s.conds or ('-not ' + gen) in s.conds
-        gen_miss = ('-' + gen) in s.conds or ('+not ' + gen) in s.conds
+        def _t(x):     # x is true / x is not None (a registered record is a non-empty tuple, a response class is a class: both
+            # tests say the same of them)
+            return ('+' + x) in s.conds or ('-not ' + x) in s.conds or ('+%s is not None' % x) in s.conds or ('-%s is None' % x) in s.conds
+
+        def _f(x):
+            return ('-' + x) in s.conds or ('+not ' + x) in s.conds or ('-%s is not None' % x) in s.conds or ('+%s is None' % x) in s.conds
+        has_cmd, no_cmd = _t(cparam), _f(cparam)
+        spec_hit, spec_miss = _t(spec), _f(spec)
+        gen_hit, gen_miss = _t(gen), _f(gen)
         if has_cmd and spec_hit:
             src = spec
             if tterm != spec + '.code_type':
@@ -482,6 +503,55 @@ def run(repo, rep):
     pending_want = {'CFindRSPMessage': [0xFF00, 0xFF01], 'CGetRSPMessage': [0xFF00], 'CMoveRSPMessage': [0xFF00]}
     cf = conflicts(general)
     rep.check(not cf, 'C18.W3', 'statuses:KNOWN_STATUSES:general-conflicts', st.relpath, 'no conflicting general rows', '; '.join(cf))
+    pf_breaks = set()
+    pf_eval = None
+    if post_filter is not None:
+        from ..peval import CannotEval as _CE, PEval as _PE, Raised as _Rs, Scope as _Sc
+        _pe = _PE(repo, max_steps=2000000)
+        _hf, _vpos = post_filter
+        # where the filter's answer can change: the integer constants its code (and the functions / tables of the module it
+        # reads) compares with, and their neighbours
+        seen_fn = set()
+        work = [_hf.node]
+        while work:
+            nd = work.pop()
+            for x in ast.walk(nd):
+                if isinstance(x, ast.Constant) and isinstance(x.value, int) and not isinstance(x.value, bool):
+                    pf_breaks.update((x.value - 1, x.value, x.value + 1))
+                elif isinstance(x, ast.Name) and x.id not in seen_fn:
+                    seen_fn.add(x.id)
+                    if x.id in st.functions:
+                        work.append(st.functions[x.id].node)
+                    elif x.id in st.assigns:
+                        work.extend(st.assigns[x.id])
+        pf_breaks = {b_ for b_ in pf_breaks if 0 < b_ < 0x10000}
+        _cache = {}
+
+        def pf_eval(code, typ):
+            k_ = (code, typ)
+            if k_ not in _cache:
+                try:
+                    rec = _pe.expr(ast.parse('s(%r, %r)' % (typ, 'x'), mode='eval').body, _Sc(st, None, {}))
+                    out_ = _pe.call_function(_hf, [code, rec] if _vpos == 0 else [rec, code], {}, None)
+                    _cache[k_] = out_[0] if isinstance(out_, tuple) and len(out_) == 2 and isinstance(out_[0], str) else None
+                except (_CE, _Rs) as ex_:
+                    raise AnalysisError('%s: the record filter %s cannot be evaluated for code %04X, type %r: %s'
+                                        % (_hf.loc(), _hf.name, code, typ, ex_))
+            return _cache[k_]
+
+    def filtered(a, b, typ):
+        """[(lo, hi+1, effective type)] for the codes a..b-1 all registered with ``typ``"""
+        if pf_eval is None:
+            return [(a, b, typ)]
+        cuts = sorted({a, b} | {x for x in pf_breaks if a < x < b})
+        out_ = []
+        for lo_, hi_ in zip(cuts, cuts[1:]):
+            t_ = pf_eval(lo_, typ)
+            if out_ and out_[-1][2] == t_:
+                out_[-1] = (out_[-1][0], hi_, t_)
+            else:
+                out_.append((lo_, hi_, t_))
+        return out_
     for cname in [None] + resp:
         tab = specific.get(cname, []) if cname else []
         bounds = {0, 0x10000}
@@ -497,15 +567,19 @@ def run(repo, rep):
             sp = lookup(tab, a)
             ge = lookup(general, a)
             typ = sp[0] if sp else (ge[0] if ge else unknown_type)
-            summary[typ] = summary.get(typ, 0) + (b - a)
-            if typ not in TYPES:
-                probs.append('codes %04X-%04X are classified %r: none of the five flags is true' % (a, b - 1, typ))
-        if lookup(tab, 0) and lookup(tab, 0)[0] != 'Success' or not lookup(tab, 0) and (lookup(general, 0) or (None,))[0] != 'Success':
+            for a2, b2, typ2 in filtered(a, b, typ):
+                summary[typ2] = summary.get(typ2, 0) + (b2 - a2)
+                if typ2 not in TYPES:
+                    probs.append('codes %04X-%04X are classified %r: none of the five flags is true' % (a2, b2 - 1, typ2))
+                elif typ2 != typ and (sp or ge):
+                    probs.append('codes %04X-%04X are registered as %s but classified %s by %s' % (a2, b2 - 1, typ, typ2, post_filter[0].name))
+        if filtered(0, 1, (lookup(tab, 0) or lookup(general, 0) or (unknown_type,))[0])[0][2] != 'Success':
             probs.append('0000H is not Success')
         for code in pending_want.get(cname, []):
             sp = lookup(tab, code)
             ge = lookup(general, code)
             typ = sp[0] if sp else (ge[0] if ge else unknown_type)
+            typ = filtered(code, code + 1, typ)[0][2]
             if typ != 'Pending':
                 probs.append('%04XH is %s for %s, must be Pending' % (code, typ, cname))
         if sum(summary.values()) != 0x10000:
